@@ -7,10 +7,14 @@ check('C08', 'proof',
       '3/C08')
 check('C09', 'proof',
       'Proved for all texts/tokens/configurations: TextLinesCursor.match implements the documented token rule (prefix match, case-folded iff '
-      'ignorecase, nameguard with @@namechars), next_token terminates and stops only where no whitespace/comment pattern has a non-empty match.',
-      'Regex matching is an uninterpreted function (re.match is external); "token is a name" is uninterpreted; config layering and the '
-      'layout metamorphosis are bounded runs.',
-      'contract-based deductive verification (pyvc: VCs from the real AST, z3) + bounded stand-in for the API-level statement',
+      'ignorecase, nameguard with @@namechars), next_token terminates and stops only where no whitespace/comment pattern has a non-empty match; '
+      'ParserEngine.bound runs the parse with own.override_config(config).override(start, **settings) and nothing else and leaves the context idle at every exit; '
+      'Config._find_common/override/hard_override/merge/override_config/merge_config lay settings over a configuration pointwise as documented '
+      '(a setting that is None/Undefined or an empty collection over a non-empty one never overrides unless hard; merge only fills None).',
+      'Regex matching is an uninterpreted function (re.match is external); "token is a name" is uninterpreted; dataclasses.replace/fields and '
+      'ParserConfig.__post_init__ are a trusted model (constructor arguments, not normalised values); the API-level statement (layout metamorphosis, '
+      'precedence of the layers on model and generated parser, histories on a reused parser) is a bounded run.',
+      'contract-based deductive verification (pyvc: VCs from the real AST, z3/cvc5) + bounded stand-in for the API-level statement',
       '3/C09')
 check('C01', 'proof',
       'Proved for all inputs (no bound) on the real functions: the CST algebra (cst.py), names dict (ast.py), frame stack (state.py), '
